@@ -494,6 +494,11 @@ func (w *vWriteRun) request(req string, l22, l3, of bool) bool {
 			c.Violate("c06:directory-not-new", "directory %q already had %d entries right after START", w.cur.dir, len(ents))
 			return false
 		}
+	case "PAUSE":
+		// PAUSE flushes every file of every channel before it returns: what was accepted so far is on disk now
+		if w.cur != nil && !w.checkFlushed(w.cur) {
+			return false
+		}
 	case "UNPAUSE":
 		if label != "" && w.cur != nil {
 			w.cur.labels = append(w.cur.labels, label)
@@ -573,6 +578,53 @@ func vEqU16(a, b []uint16) bool {
 }
 
 // checkSession decodes every file of a stopped session and compares with the expectation.
+// checkFlushed: right after a call that flushes (PAUSE), every open file of the session holds all the records accepted for it so
+// far, whole (the count is what is compared here; the content is compared after STOP).
+func (w *vWriteRun) checkFlushed(s *vSession) bool {
+	c, ds := w.c, w.f.ds
+	fname := func(name, ext string) string { return fmt.Sprintf(filepath.Base(s.pattern), name, ext) }
+	for ch := 0; ch < w.nchan; ch++ {
+		for _, ext := range []string{"ljh", "ljh3", "off"} {
+			want := s.expected[fmt.Sprintf("%d/%s", ch, ext)]
+			if len(want) == 0 {
+				continue
+			}
+			fn := fname(ds.chanNames[ch], ext)
+			b, err := os.ReadFile(filepath.Join(s.dir, fn))
+			if err != nil {
+				c.Violate("c07:flush-incomplete", "PAUSE has returned (it flushes every file), %d records were accepted for %s, but the file does not exist (history %v)", len(want), fn, w.hist)
+				return false
+			}
+			got, trailing := -1, 0
+			var perr error
+			switch ext {
+			case "ljh":
+				var f *vLJH22File
+				if f, perr = vParseLJH22(b); perr == nil {
+					got, trailing = len(f.recs), f.trailing
+				}
+			case "ljh3":
+				var f *vLJH3File
+				if f, perr = vParseLJH3(b); perr == nil {
+					got, trailing = len(f.recs), f.trailing
+				}
+			case "off":
+				var f *vOFFFile
+				if f, perr = vParseOFF(b); perr == nil {
+					got, trailing = len(f.recs), f.trailing
+				}
+			}
+			if perr != nil || got != len(want) || trailing != 0 {
+				c.Violate("c07:flush-incomplete", "PAUSE has returned (it flushes every file of every channel), %d records were accepted for %s so far, but the file (%d bytes) holds %d whole records and %d further bytes (parse: %v; session types %v; history %v)",
+					len(want), fn, len(b), got, trailing, perr, s.types, w.hist)
+				return false
+			}
+			c.Cov("files_checked_right_after_a_flush", 1)
+		}
+	}
+	return true
+}
+
 func (w *vWriteRun) checkSession(s *vSession) bool {
 	c, ds := w.c, w.f.ds
 	if open := vOpenFDsUnder(s.dir); len(open) > 0 {
